@@ -920,6 +920,7 @@ pub struct RunResult {
     pub probes: BTreeMap<&'static str, u64>,
     pub history: Vec<HistEv>,
     pub max_runnable: usize,
+    pub panic_message: String,
 }
 
 fn short_loc(loc: &str) -> String {
@@ -989,6 +990,7 @@ pub fn run_case(case: &Case) -> RunResult {
         probes: out.probes,
         history: out.history,
         max_runnable: out.sched.max_runnable,
+        panic_message: out.panic.map(|p| p.message).unwrap_or_default(),
     }
 }
 
@@ -1071,6 +1073,7 @@ fn replay(cli: &Cli, path: &Path) -> i32 {
     if cli.opts.contains_key("dump") {
         println!("{}", serde_json::to_string_pretty(&history_json(&r.history, 1000)).unwrap());
         println!("verdict: {:?}", r.verdict);
+        println!("panic: {}", r.panic_message);
     }
     let rr = match r.found {
         Some(f) => ReplayResult { violated: true, sig: f.sig, class: f.class, message: f.message, log_hash: r.trace },
